@@ -28,9 +28,10 @@ FOLLOW = {
 
 def BOUNDS(tier):
     return ("closing message in %r (Connection: close, HTTP/1.0, refused framing, fewer bytes than the declared Content-Length, CL+TE) preceded by "
-            "0..1 ordinary requests and followed by %r, in the same read or a later one; channel_request_lookahead in {0,1,2,5}; every interleaving "
+            "0..1 ordinary requests and followed by %r, in the same read or a later one; channel_request_lookahead in {0,1}%s; every interleaving "
             "of the I/O thread and %s with at most 1 pre-emption at source-line granularity of channel.py." % (
-                sorted(CLOSERS), sorted(FOLLOW), "one worker" if tier == "quick" else "one or two workers"))
+                sorted(CLOSERS), sorted(FOLLOW), " and {2,5} for the closers CC / E400 with the followers 'two' / 'split'" if tier == "quick" else " and {2,5}",
+                "one worker" if tier == "quick" else "one or two workers"))
 
 
 def jobs(tier):
@@ -38,7 +39,7 @@ def jobs(tier):
     for c in CLOSERS:
         for f in FOLLOW:
             for la in (0, 1, 2, 5):
-                if tier == "quick" and (la == 5 and f not in ("two", "split") or la == 2 and f == "garbage"):
+                if tier == "quick" and la in (2, 5) and (f not in ("two", "split") or c not in ("CC", "E400")):
                     continue
                 js.append(dict(name="%s:%s:la%d" % (c, f, la), closer=c, follow=f, lookahead=la, workers=1, P=1))
     if tier == "thorough":
